@@ -199,6 +199,7 @@ def main(argv=None):
     merged = {
         "evaluations": 0, "nontrivial": set(), "labels": {}, "discards": {}, "failures": {},
         "samples": [], "max_err": {}, "excluded_known": {}, "incomplete": [], "per_shard": [],
+        "counters": {},
     }
     for r in results:
         res = r["result"]
@@ -213,8 +214,8 @@ def main(argv=None):
                 + "\ncase: " + json.dumps(res["harness_errors"][0]["case"])[:1500])
         merged["evaluations"] += res["evaluations"]
         merged["nontrivial"].update(res["nontrivial"])
-        for k in ("labels", "discards", "excluded_known"):
-            for kk, v in res[k].items():
+        for k in ("labels", "discards", "excluded_known", "counters"):
+            for kk, v in res.get(k, {}).items():
                 merged[k][kk] = merged[k].get(kk, 0) + v
         for kk, v in res["max_err"].items():
             merged["max_err"][kk] = max(merged["max_err"].get(kk, 0.0), v)
@@ -298,6 +299,7 @@ def main(argv=None):
                 "class_histogram": dict(sorted(merged["labels"].items())),
                 "discarded": merged["discards"],
                 "excluded_known": merged["excluded_known"],
+                "counters": merged["counters"],
                 "suppressed_known_signatures": suppressed,
                 "max_discrepancy_in_units_of_tolerance": merged["max_err"],
                 "per_shard": merged["per_shard"],
